@@ -4,6 +4,7 @@ package main
 // the standard library (DESIGN.md §3: class B models, class C contract stubs).
 
 import (
+	goruntime "runtime"
 	"fmt"
 	"go/token"
 	"go/types"
@@ -467,6 +468,19 @@ func init() {
 	reg("sort.Slice", sortSliceWith(false))
 	reg("sort.SliceStable", sortSliceWith(true))
 
+	// runtime.GOMAXPROCS is a piece of state the harness sets explicitly (so that a replay runs under the same
+	// setting); unset, it is the number of CPUs of this machine, as in the native run
+	reg("runtime.GOMAXPROCS", func(x *Exec, fr *frame, args []value) value {
+		cur := x.procs
+		if cur == 0 {
+			cur = int64(goruntime.NumCPU())
+		}
+		if n := x.concretize(args[0].(*Term), "GOMAXPROCS"); n > 0 {
+			x.procs = n
+		}
+		return x.tb.Int(cur)
+	})
+	reg("runtime.NumCPU", func(x *Exec, fr *frame, args []value) value { return x.tb.Int(int64(goruntime.NumCPU())) })
 	registerNumberStubs(reg)
 	registerReflectStubs(reg)
 	registerSyncStubs(reg)
